@@ -264,6 +264,23 @@ def _tree_once(case, acc, nodes):
             acc.tag("exports_aborted_by_callback_exception")
         trip["left"] = None
         same_export(exporter2.export(start), exp, dictcls, path="root (same exporter, after an aborted export)")
+    # a callback may itself use the exporter (an attriter that expands node-valued attributes inline with the same
+    # exporter object): the nested export() calls must not disturb the export that is in progress
+    holder = {}
+    side = AnyNode(id="side")
+    AnyNode(id="side-leaf", parent=AnyNode(id="side-mid", parent=side))
+
+    def reentrant(items):
+        if not holder.get("nested"):
+            holder["nested"] = True
+            try:
+                holder["exporter"].export(side)
+            finally:
+                holder["nested"] = False
+        return (attriter or (lambda x: x))(items)
+
+    holder["exporter"] = DictExporter(**dict(kwargs, attriter=reentrant))
+    same_export(holder["exporter"].export(start), exp, dictcls, path="root (attriter calls export() of the same exporter on another tree)")
     if tree_state(nodes) != before:
         raise Violation("export-modifies-tree", "the exported tree was modified")
     # import what was exported
@@ -291,9 +308,31 @@ def _tree_once(case, acc, nodes):
     acc.tag("start_not_root", case["start"] != 0)
 
 
+class AutoDict(dict):
+    """A mapping with __missing__ (like collections.defaultdict(list)): merely LOOKING UP an absent key inserts it."""
+
+    def __missing__(self, key):
+        value = self[key] = []
+        return value
+
+
+def to_autodict(data):
+    out = AutoDict()
+    for key, value in data.items():
+        out[key] = [to_autodict(c) for c in value] if key == "children" else value
+    return out
+
+
 def check_dict_case(case, acc):
     data = decode_dict(case["data"])
     nodecls = NODECLS[case["cls"]]
+    # the same data as auto-vivifying dictionaries: importing must not even look up keys that are not there
+    auto = to_autodict(data)
+    picture = structural_copy(auto)
+    auto_root = DictImporter(nodecls=nodecls).import_(auto)
+    if structural_copy(auto) != picture:
+        raise Violation("import-modifies-argument", "import_ changed an auto-vivifying dictionary (a key that was looked up without being there got inserted)")
+    isomorphic(auto_root, data, nodecls)
     snapshot = structural_copy(data)
     root = DictImporter(nodecls=nodecls).import_(data)
     if structural_copy(data) != snapshot:
